@@ -8,7 +8,9 @@
     * element   `ElementStart` = `Span::from_prefix_name` of an `ElementStart` token whose local
                 name is the local name of the node's name id and whose prefix resolves (in the
                 element's own declarations, then the enclosing ones) to the name's namespace;
-                `ElementEnd` = the whole span of a `/>` or `</q>` token; every attribute child
+                `ElementEnd` = the whole span of a `/>` or `</q>` token, and an end tag `</q>` is
+                written with the prefix and the local name of that `ElementStart` token (`EndLink`;
+                `PfxDesc` carries `open_prefixes` against the open frames for it); every attribute child
                 has `AttributeName` / `AttributeValue` = name / value span of an `Attribute` token
                 whose decoded value (ID-normalised for the name id of xml:id) is the child's value;
     * text      `Text` = from the start of the first to the end of the last token of a RUN of
